@@ -88,14 +88,16 @@ def sessions(rng, thorough):
 class C15(c02.C02):
     id = "C15"
     modules = ["Proofs.FramingProofs", "Proofs.FramingProofsFrames", "Proofs.FramingProofsCut",
-               "Proofs.FramingProofsWrap", "Props.C15"]
+               "Proofs.FramingProofsWrap", "Proofs.C15Endpoint", "Props.C15"]
     obligations = ["step_app", "run_app", "chunk_independence", "run_eof_done", "run_frame", "parse_cl_no_lf",
                    "partial_line", "partial_body", "cut_inside_frame", "loop_on_prefix", "prefix_dispatch_complete_frames",
                    "terminates_normally", "no_partial_dispatch", "cut_bodies_full", "conforming_all",
                    "wrapper_releases", "wrapper_releases_any", "tcp_callback_closes_writer", "wrapper_returns_iff",
                    "send_data_never_raises", "send_data_effects",
                    "C15_framing", "C15_cut_inside_body", "C15_nonvacuous", "C15_wrappers",
-                   "C15_refuted_tcp_callback", "C15_refuted_start_io_sync", "C15_send_data", "C15_send_data_nonvacuous"]
+                   "C15_refuted_tcp_callback", "C15_refuted_start_io_sync", "C15_send_data", "C15_send_data_nonvacuous",
+                   "C15Endpoint.send_data_b", "C15Endpoint.step_fw", "C15Endpoint.run_fw", "failing_writer_core",
+                   "failing_writer_alive", "C15_failing_writer", "C15_failing_writer_nonvacuous"]
     coq_targets = ["Props/C15.vo", "Extract/ExtractC15.vo"]
     COQCHK = "Pygls.Props.C15"
     rule = ("sessions of 1-6 JSON-RPC frames (three header layouts, multi-byte UTF-8, header text inside a body) x EVERY "
@@ -219,6 +221,7 @@ class C15(c02.C02):
         logging.disable(logging.CRITICAL)
         for name, fn in (("wrappers_inprocess", self.check_wrappers_inprocess),
                          ("failing_writers", self.check_failing_writers),
+                         ("failing_writers_endpoint", self.check_failing_writers_endpoint),
                          ("real_servers", self.check_real_servers)):
             t0 = time.time()
             v, n = fn(chk)
@@ -226,6 +229,10 @@ class C15(c02.C02):
             viol += v
         self.extra_coverage = cov
         return viol
+
+    def check_failing_writers_endpoint(self, chk):
+        import c15_endpoint                  # scheduler-driven companion of Proofs/C15Endpoint.v
+        return c15_endpoint.check(chk)
 
     @staticmethod
     def _viol(case, impl, S):
